@@ -144,7 +144,7 @@ type c12op struct {
 	Names []string `json:"names,omitempty"`
 }
 
-var c12kinds = []string{"NewURLFromRaw", "NewRequest", "UnmarshalDocument", "UnmarshalPartialResource", "New+Set", "Types[i].New", "MarshalDocument", "GetType", "HasType", "Check", "Rels", "RejectedBody"}
+var c12kinds = []string{"NewURLFromRaw", "NewRequest", "UnmarshalDocument", "UnmarshalPartialResource", "New+Set", "Types[i].New", "MarshalDocument", "GetType", "HasType", "Check", "Rels", "RejectedBody", "Echo"}
 
 // exec runs one op against the shared schema and returns a result fingerprint.
 func (o *c12op) exec(s *SchemaSpec, schema *jsonapi.Schema) string {
@@ -209,6 +209,33 @@ func (o *c12op) exec2(s *SchemaSpec, schema *jsonapi.Schema) (string, func() str
 			return "err", nil
 		}
 		again := func() string { return resFingerprint(res) }
+		return again(), again
+	case "Echo":
+		// a document read from a request body and written back (proxy / echo): unmarshal, then marshal THAT document
+		doc, err := jsonapi.UnmarshalDocument([]byte(o.Body), schema)
+		if err != nil {
+			return "err", nil
+		}
+		u, uerr := jsonapi.NewURLFromRaw(schema, o.Raw)
+		if uerr != nil {
+			return "urlerr", nil
+		}
+		doc.PrePath = "https://echo.example/" + o.Type
+		out, merr := jsonapi.MarshalDocument(doc, u)
+		if merr != nil {
+			return "merr", nil
+		}
+		again := func() string {
+			var sb strings.Builder
+			sb.WriteString(digest(out) + "|" + docFingerprint(doc))
+			for _, k := range sortedKeys(doc.Links) {
+				fmt.Fprintf(&sb, "|link.%s=%s", k, doc.Links[k].HRef)
+			}
+			for _, k := range sortedKeys(doc.RelData) {
+				fmt.Fprintf(&sb, "|reldata.%s=%v", k, doc.RelData[k])
+			}
+			return sb.String()
+		}
 		return again(), again
 	case "RejectedBody":
 		// a body with exactly one fault: the error object that comes back belongs to the caller like any result
@@ -393,8 +420,9 @@ func (m c12) genOps(r *RNG, s *SchemaSpec, n int) []c12op {
 		switch k {
 		case "NewURLFromRaw":
 			o.Raw = genURL(r, s).Raw()
-		case "NewRequest", "UnmarshalDocument", "UnmarshalPartialResource":
+		case "NewRequest", "UnmarshalDocument", "UnmarshalPartialResource", "Echo":
 			o.Raw = "/" + t.Name
+			o.Type = fmt.Sprintf("%s-%d", t.Name, i)
 			rs := genResource(r, t, genNonEmptyID(r))
 			// payload built by my own writer (the library is not used to prepare inputs concurrently)
 			p := &c06payload{Type: *t, ID: rs.ID, Attrs: map[string]string{}, Rels: map[string]string{}}
